@@ -31,7 +31,7 @@ MANIFEST = dict(
     text=("spec/Aggregations.tla: Direct(E) for count,sum,min,max,avg,range,values,list,earliest,latest,dc; running partial Add, Merge, "
           "group table TAdd/TMerge, Bucket; invariants Merge-over-every-segmentation = Direct, every occurring key exactly once "
           "(absent, empty-string, numeric, bool keys), rows partition the events, Merge commutative, buckets partition the time line "
-          "for spans dividing and not dividing the range. Gen_Aggregations exports each complete behaviour; checks/c04.py ingests the "
+          "for spans dividing and not dividing the range and for align times before, inside and after the data (bin aligntime=, floor of a negative quotient). Gen_Aggregations exports each complete behaviour; checks/c04.py ingests the "
           "dataset with that segmentation through sigdrv and compares measure[].MeasureVal/GroupByValues of the real responses."),
     note=("Bounds: 3 events (4 in thorough) per dataset, measure values {3,-2,0,1.5,-0.75,'2','zz',absent}, 6 group keys, timestamps "
           "around bucket boundaries. All numbers are binary-exact so the 1e-9 tolerance for float sums is never needed; percentiles, "
@@ -45,7 +45,10 @@ T0 = 42000 * 40476191          # multiple of every span used (700, 1000, 1500, 2
 STATS = "count, count(x), sum(x), min(x), max(x), avg(x), range(x), dc(x), values(x), list(x), earliest(x), latest(x)"
 GSTATS = "count, count(x), sum(x), min(x), max(x), avg(x), range(x), dc(x), values(x)"
 SSTATS = "count, sum(x), min(x), max(x), avg(x), range(x)"      # answerable from ingest-time segment statistics alone
-SPAN_TXT = {1000: "1s", 2000: "2s", 1500: "1500ms", 700: "700ms"}
+SPAN_TXT = {1000: "1s", 2000: "2s", 1500: "1500ms", 700: "700ms", 500: "500ms", 60000: "1m"}
+# relative align times the grammar accepts (resolved against the wall clock at parse time, i.e. long after the data):
+# only the partition property can be demanded for them, the align time itself is not known to the check
+REL_ALIGN = ["now", "-1h", "@d", "-1d@h+300s"]
 
 
 # ----------------------------------------------------------------------------- concretisation
@@ -310,12 +313,17 @@ def check_case(case, results):
                         out.append(("C04:%s:groupby:key-missing" % ("part-lacks-field" if part_lacks(ds, cuts, "g") or part_lacks(ds, cuts, "x")
                                                                     else "key-" + exp[k]["key"]["k"]),
                                     "[%s] `%s`: no row for the occurring key %r (rows: %s)" % (path, q["text"], k, sorted(seen))))
-            elif kind in ("timechart", "bin"):
+            elif kind in ("timechart", "bin", "binalign"):
                 span = q["span"]
                 tss = [T0 + e["ts"] for e in ds if q["start"] <= T0 + e["ts"] <= q["end"]]
                 keys = []
                 at_end = any(t == q["end"] for t in tss)
                 tag = "event-at-range-end" if at_end else ("span-divides" if (q["end"] - q["start"]) % span == 0 else "span-not-dividing")
+                if kind == "binalign":
+                    # where the align time lies relative to the events: the quotient (ts - align) / span is negative for older events
+                    al = q.get("align")
+                    tag = "align-relative-form" if al is None else "align-before-data" if al <= min(tss) else \
+                        "align-after-data" if al > max(tss) else "align-inside-data"
                 for gv, igv, mv in rows:
                     try:
                         k = int(gv[0])
@@ -345,6 +353,17 @@ def check_case(case, results):
                     if n != 1:
                         out.append(("C04:%s:%s:event-not-in-one-bucket" % (tag, kind), "[%s] `%s` on [%d,%d]: the event at %d lies in %d returned "
                                     "buckets %s (+%d ms)" % (path, q["text"], q["start"] - T0, q["end"] - T0, t - T0, n, [k - T0 for k in keys], span)))
+                if kind == "binalign" and q.get("align") is not None:
+                    for k in keys:
+                        if (k - q["align"]) % span != 0:
+                            out.append(("C04:%s:binalign:bucket-not-aligned" % tag, "[%s] `%s`: bucket %d is not aligntime %d + k*%d ms" % (
+                                path, q["text"], k - T0, q["align"] - T0, span)))
+                    want = {T0 + rw["b"]: rw["count"] for b in beh["aligned"] if b["span"] == span and T0 + b["align"] == q["align"] for rw in b["rows"]}
+                    got = {int(gv[0]): mv.get("count(*)") for gv, igv, mv in rows if gv and gv[0].lstrip("-").isdigit()}
+                    if got != want:
+                        out.append(("C04:%s:binalign:table" % tag, "[%s] `%s` (aligntime = T0%+d, events at %s): got %s, want %s" % (
+                            path, q["text"], q["align"] - T0, [t - T0 for t in tss], {k - T0: v for k, v in sorted(got.items())},
+                            {k - T0: v for k, v in sorted(want.items())})))
                 if kind == "bin":
                     want = {T0 + rw["b"]: rw["count"] for b in beh["buckets"] if b["span"] == span for rw in b["rows"]}
                     got = {int(gv[0]): mv.get("count(*)") for gv, igv, mv in rows if gv and gv[0].lstrip("-").isdigit()}
@@ -435,6 +454,17 @@ def build_case(idx, mode, beh):
             if span in (1000, 2000):
                 qs.append(dict(name="bin/%d" % span, kind="bin", span=span, stats="bin",
                                text="* | bin span=%s timestamp | stats count, sum(x) by timestamp" % SPAN_TXT[span], start=wide[0], end=wide[1]))
+        # bin with an explicit align time before / inside / after the data (epoch form), every exported (span, align)
+        for al in sorted(beh.get("aligned", []), key=lambda a: (a["span"], a["align"])):
+            span, a = al["span"], T0 + al["align"]
+            opts = "span=%s aligntime=%d" % (SPAN_TXT[span], a) if (span + al["align"]) % 3 else "aligntime=%d span=%s" % (a, SPAN_TXT[span])
+            qs.append(dict(name="binalign/%d/%d" % (span, al["align"]), kind="binalign", span=span, align=a, stats="binalign",
+                           text="* | bin %s timestamp | stats count, sum(x) by timestamp" % opts, start=wide[0], end=wide[1]))
+        for i, rel in enumerate(REL_ALIGN):
+            span = (1000, 2000, 500, 1000)[i]
+            qs.append(dict(name="binalign/rel/%s" % rel, kind="binalign", span=span, align=None, stats="binalign",
+                           text="* | bin span=%s aligntime=%s timestamp | stats count, sum(x) by timestamp" % (SPAN_TXT[span], rel),
+                           start=wide[0], end=wide[1]))
     return dict(idx=idx, mode=mode, beh=beh, events=evs, cuts=beh["cuts"], queries=qs)
 
 
@@ -455,7 +485,7 @@ def run(chk):
     # ---- model + behaviours (all TLC runs side by side, 2 workers each)
     mc = [("agg", "measure domain: all datasets x all segmentations"), ("group", "group-key domain (absent/empty/numeric/bool/string keys)"),
           ("bucket", "timestamps on/around span boundaries, spans dividing and not dividing")]
-    jobs = [("mc", c) for c in mc] + [("gen", x) for x in ("agg", "group", "bucket")] + [("defect", x) for x in ("min", "avg", "latest", "key")]
+    jobs = [("mc", c) for c in mc] + [("gen", x) for x in ("agg", "group", "bucket")] + [("defect", x) for x in ("min", "avg", "latest", "key", "align")]
 
     def tlc(job):
         kind, a = job
